@@ -271,6 +271,7 @@ pub fn role_case(max_ops: usize, max_dirs: usize, sites: &'static [u32]) -> Boxe
                 sched,
                 tmpl: "roles".to_string(),
                 rr,
+                noflush: align % 2 == 1,
             })
             .unwrap()
         })
@@ -351,15 +352,17 @@ pub fn free_case(
                 ),
                 proptest::collection::vec(directive_strategy(n as u8, sites), 0..=max_dirs),
                 prop_oneof![Just(0u8), 1u8..4],
+                any::<bool>(),
             )
         })
-        .prop_map(|(align, threads, sched, rr)| {
+        .prop_map(|(align, threads, sched, rr, noflush)| {
             serde_json::to_value(RcCase {
                 align,
                 threads,
                 sched,
                 tmpl: String::new(),
                 rr,
+                noflush,
             })
             .unwrap()
         })
@@ -378,6 +381,7 @@ pub fn seq_case(w: W, max_ops: usize) -> BoxedStrategy<Value> {
                 sched: vec![],
                 tmpl: String::new(),
                 rr: 0,
+                noflush: false,
             })
             .unwrap()
         })
@@ -844,6 +848,7 @@ impl TB {
             sched: self.sched,
             tmpl: tmpl.to_string(),
             rr: 0,
+            noflush: align % 3 == 2,
         })
         .unwrap()
     }
